@@ -335,6 +335,9 @@ func c19Histories(r *core.Run) {
 		}
 		for i := 0; i < nops && r.Violations() < 10; i++ {
 			s.RandomOp(cfg)
+			if i == nops/3 {
+				s.DirectedRotation() // each kind of operation once as the first after an unseen rotation
+			}
 		}
 		// directed: a melt is left in flight, the payment then succeeds and nobody looks before the
 		// restore does (its own state check is the first to find the melt paid)
@@ -397,6 +400,10 @@ func c19Chains(r *core.Run) {
 			// many outputs: repeated funding and self-sends with awkward amounts
 			target := uint32(130 + rng.Intn(120))
 			start := cur.Store.GetKeysetCounter(w.Mints[0].Env.Active().Id)
+			last := g == gens-1 && !cfg.Rotate
+			if last && start+target < 340 {
+				target = 340 - start // the last generation of a chain without rotations gets past three full restore batches
+			}
 			for i := 0; i < 200 && r.Violations() < 10; i++ {
 				if cur.Store.GetKeysetCounter(w.Mints[0].Env.Active().Id) >= start+target {
 					break
@@ -413,6 +420,23 @@ func c19Chains(r *core.Run) {
 				default:
 					s.RandomOp(cfg)
 				}
+			}
+			if last {
+				// directed: everything the wallet holds is moved to fresh outputs (the whole balance sent to
+				// itself, twice): every older output of the seed is spent, only the newest ones are not — three
+				// and more restore batches in a row come back signed but entirely spent before the live ones
+				for k := 0; k < 2; k++ {
+					if bal := cur.Balance(); bal > 20 {
+						amt := bal
+						if w.Mints[0].Env.Active().Fee > 0 {
+							amt = bal - bal/8 - 2
+						}
+						if ht, err := s.OpSend(cur, amt, w.Mints[0].URL, false); err == nil && ht != nil {
+							s.OpReceive(cur, ht, false)
+						}
+					}
+				}
+				r.Count("chains_swept_before_last_restore", 1)
 			}
 			dir, ok := c19RestoreAndCompare(r, w, seed, mnemonic, fmt.Sprintf("%s/gen%d", sig, g), fmt.Sprintf("generation-%d", g), s.Tail(6))
 			if !ok {
